@@ -146,9 +146,15 @@ func runW2(c *hx.Ctx, prop string, g W2Cfg, hist, expect []string, seed int64, t
 	replay["sinkIsByteWriter"] = (seed+int64(len(hist)))%2 == 1
 	var w *lzma.Writer2
 	var err error
-	if p := safely(func() { w, err = g.lib().NewWriter2(target) }); p != nil || err != nil {
+	libCfg := g.lib()
+	if p := safely(func() { w, err = libCfg.NewWriter2(target) }); p != nil || err != nil {
 		c.Violation(sig("new-failed"), fmt.Sprintf("NewWriter2(%v) failed: %v %v", g, err, p), replay)
 		return res
+	}
+	// the configuration belongs to the caller again once the writer exists: reusing (here:
+	// overwriting) it for something else must not reach into the running writer
+	if libCfg.Properties != nil {
+		*libCfg.Properties = lzma.Properties{LC: (g.LC + 1) % 4, LP: 0, PB: (g.PB + 2) % 5}
 	}
 	closed := false
 	var flushPoints []int // indices into res.Calls of successful flushes
